@@ -176,7 +176,7 @@ fn main() {
                 }
                 (ops, outs, viols, sched::SchedStats { cases: n, schedules: n, nonlinearizable_known: Default::default(), distinct_outcomes: Default::default(), samples: vec![] })
             } else {
-                if profile == "C14deep" { psched::run_suite(seed, count, per_case, trace()) } else if profile == "C14" { sched::run_policy_suite(seed, count, per_case, trace()) } else { sched::run_suite(&profile, seed, count, per_case, trace()) }
+                if profile == "C14deep" || profile == "C03deep" { psched::run_suite_profile(&profile, seed, count, per_case, trace()) } else if profile == "C14" { sched::run_policy_suite(seed, count, per_case, trace()) } else { sched::run_suite(&profile, seed, count, per_case, trace()) }
             };
             std::fs::write(format!("{}/ops.txt", out), ops.join("\n") + "\n").unwrap();
             std::fs::write(format!("{}/impl.txt", out), outs.join("\n") + "\n").unwrap();
